@@ -4,6 +4,7 @@ package c08pool
 import (
 	"bytes"
 	"io"
+	"log"
 	"sync"
 )
 
@@ -445,3 +446,38 @@ func BadTwiceHelperAndClosure(r io.Reader) int {
 	putBuf(buf)
 	return n
 }
+
+// ---- borrowed memory is not put into a pool by a function that returns something
+
+func GoodReleaseOp(b *[]byte) { pool.Put(b) }
+
+func GoodGrowCopy(b []byte, n int) []byte {
+	out := make([]byte, n)
+	copy(out, b)
+	return out
+}
+
+func BadGrowAndRelease(b *[]byte, n int) []byte {
+	out := make([]byte, n)
+	copy(out, *b)
+	putBuf(b)
+	return out
+}
+
+// ---- process-wide library objects
+
+type named struct{ l *log.Logger }
+
+func GoodOwnLogger(w io.Writer) *named {
+	l := log.New(w, "", 0)
+	l.SetPrefix("x")
+	return &named{l: l}
+}
+
+func BadSharedLoggerReconfigured(w io.Writer) *named {
+	l := log.Default()
+	l.SetOutput(w)
+	return &named{l: l}
+}
+
+func BadPackageSetter(w io.Writer) { log.SetOutput(w) }
